@@ -1,0 +1,10 @@
+//go:build verif
+
+package rand
+
+//@ # SubMap picks n distinct entries of m (random choice; it loops until it has n, so n <= len(m) is required)
+//@ trusted func SubMap[K comparable, V any](m map[K]V, n int) (om map[K]V)
+//@   requires 0 < n && n <= len(m)
+//@   ensures  om != nil && __fresh(om) && len(om) == n
+//@   ensures  forall k K :: __in(om, k) ==> __in(m, k) && __eq(om[k], m[k])
+//@   modifies nothing
